@@ -87,7 +87,7 @@ func init() {
 			return []string{"n<=3 contributors: every insertion order, every fold pattern, map order policy 'rotations'", "n=4: identity insertion order, every fold pattern", "n=5 (nobody / seats 0,2 folded) and n=6 (nobody folded): identity insertion order", "contributions: every int64 with 0 <= c < 2^56"}
 		},
 		Outside:     []string{"more than 6 contributors; insertion orders other than seat order for n >= 5 (n >= 4 in the quick tier)", "negative contributions or contributions >= 2^56", "map iteration orders outside the policy", "entries of folded seats in Pot.Contributors (not constrained by the statement)"},
-		Assumptions: append([]string{"sort.Slice on <= 12 elements is the insertion sort of go1.19+ (modelled, calls the real less closure)"}, commonAssumptions...),
+		Assumptions: append([]string{"sort.Slice: the toolchain's real algorithm runs on a shadow slice and calls the interpreted less closure for every comparison (symbolic results fork the path)"}, commonAssumptions...),
 		Explanation: "pot.LevelList.AddContributor/GetPots executed symbolically from go/ssa on symbolic contributions; the partition/nesting oracle is asserted on every path",
 	})
 
